@@ -4,15 +4,17 @@
   Strings are `List Char` (sequences of Unicode scalar values).  What is modelled:
 
   * `_INFOHASH_REGEX = ^([0-9a-f]{40}|[a-z2-7]{32})\Z` and `_XT_REGEX = ^urn:btih:(…)\Z`, both with
-    `re.IGNORECASE`, following `re.match` semantics: match at position 0, first alternative
-    first, backtrack into the second alternative when the continuation (`\Z`) fails, and the
-    Unicode case folding that `re.IGNORECASE` applies to `str` patterns (the four non-ASCII
-    characters U+0130, U+0131, U+017F, U+212A match `[a-z]`; U+0130/U+0131 match a literal `i`).
+    `re.IGNORECASE | re.ASCII`, following `re.match` semantics: match at position 0, first
+    alternative first, backtrack into the second alternative when the continuation (`\Z`) fails.
+    With `re.ASCII` case-insensitive matching is ASCII-only: no non-ASCII character matches a
+    class or a literal of these patterns (checked over all code points against the real patterns).
   * the `xt` setter (also the constructor: `Magnet(xt)` runs it on an object without `_infohash`),
     the `infohash` setter, the `xl` setter (with `int()` as an oracle parameter), `utils.URL`
     and the URL fields with `utils.is_url` as a predicate parameter,
   * `_infohash_as_base16` (`str.lower`, `str.upper`, `base64.b32decode` in 8-digit quanta,
     `base64.b16encode`), `torrent()`'s `_infohash`,
+  * `_set_infohash`: metadata adopted by `get_info` (`_info`) is dropped when the stored hash string
+    changes; `torrent()` on an object with and without `_info`,
   * `get_info`: source list (xs, as_, ws + '.torrent', HTTP trackers with the `/file?info_hash=`
     request built by `quote_from_bytes(unhexlify(...))`), the loop over download outcomes and
     the comparison in `_set_info_from_torrent`.
@@ -40,20 +42,12 @@ def isB32Ascii (c : Char) : Bool := isLowerAZ c || isUpperAZ c || inR 50 55 c
 def asciiLower (c : Char) : Char := if isUpperAZ c then Char.ofNat (c.toNat + 32) else c
 def asciiUpper (c : Char) : Char := if isLowerAZ c then Char.ofNat (c.toNat - 32) else c
 
-/-- non-ASCII characters that `re.IGNORECASE` folds onto ASCII letters in a `str` pattern:
-    İ (U+0130) and ı (U+0131) onto `i`, ſ (U+017F) onto `s`, K (U+212A, Kelvin sign) onto `k`. -/
-def foldsTo (c : Char) : Option Char :=
-  if c.toNat = 0x130 then some 'i' else if c.toNat = 0x131 then some 'i'
-  else if c.toNat = 0x17f then some 's' else if c.toNat = 0x212a then some 'k' else none
-
-def isFold (c : Char) : Bool := (foldsTo c).isSome
-
-/-- `[0-9a-f]` under IGNORECASE (no non-ASCII character folds into it) -/
+/-- `[0-9a-f]` under `IGNORECASE | ASCII` -/
 def reHex (c : Char) : Bool := isHexAscii c
-/-- `[a-z2-7]` under IGNORECASE -/
-def reB32 (c : Char) : Bool := isB32Ascii c || isFold c
-/-- a literal pattern character `p` (lower case or punctuation) under IGNORECASE -/
-def reLit (p c : Char) : Bool := asciiLower c == p || foldsTo c == some p
+/-- `[a-z2-7]` under `IGNORECASE | ASCII` (ASCII letters of either case only) -/
+def reB32 (c : Char) : Bool := isB32Ascii c
+/-- a literal pattern character `p` (lower case or punctuation) under `IGNORECASE | ASCII` -/
+def reLit (p c : Char) : Bool := asciiLower c == p
 
 /-! ## the two patterns (`re.match`) -/
 
@@ -63,7 +57,7 @@ def repeatExact (p : Char → Bool) : Nat → Str → Option Str
   | _ + 1, [] => none
   | n + 1, c :: cs => if p c then repeatExact p n cs else none
 
-/-- a literal string under IGNORECASE -/
+/-- a literal string under `IGNORECASE | ASCII` -/
 def litI : Str → Str → Option Str
   | [], cs => some cs
   | _ :: _, [] => none
@@ -150,9 +144,10 @@ def setXl (st : Option Int) (value : Option IntResult) : Option MErr × Option I
 
 def plusForSpace (s : Str) : Str := s.map fun c => if c = ' ' then '+' else c
 
-/-- `utils.URL(s)`: validity is checked on the argument, the stored string has ' ' → '+' -/
+/-- `utils.URL(s)`: the stored string has ' ' → '+'; both the argument and the stored string must
+    be valid (`not is_url(url) or not is_url(self)` ⇒ URLError) -/
 def mkUrl (isUrl : Str → Bool) (s : Str) : Except MErr Str :=
-  if isUrl s then .ok (plusForSpace s) else .error .url
+  if !isUrl s || !isUrl (plusForSpace s) then .error .url else .ok (plusForSpace s)
 
 /-- xs / as_ setter -/
 def setUrl (isUrl : Str → Bool) (st : Option Str) (v : Option Str) : Option MErr × Option Str :=
@@ -169,7 +164,8 @@ def dedup : List Str → List Str → List Str
   | acc, u :: us => if u ∈ acc then dedup acc us else dedup (acc ++ [u]) us
 
 /-- `MonitoredList.extend` → `insert` for every item: `insert` coerces the (already coerced) item
-    *again* (`URL(URL(v))`) and may therefore still raise, after the list was cleared -/
+    *again* (`URL(URL(v))`), after the list was cleared (that this second coercion cannot fail any
+    more is part of `C14_urls`) -/
 def insertAll (isUrl : Str → Bool) : List Str → List Str → Option MErr × List Str
   | acc, [] => (none, acc)
   | acc, u :: us =>
@@ -231,30 +227,6 @@ def infohashAsBase16 (ih : Str) : Except MErr Str :=
     else match up.mapM b32Val with
       | none => .error (.internal "binascii.Error")                    -- Non-base32 digit found
       | some ds => .ok (((b16Digits (b32Quanta ds)).map hexDigitUpper).map asciiLower)
-
-/-! ## histories that also *use* the object
-    `Magnet.torrent()` and the conversions inside `get_info()` (tracker request, comparison with a
-    fetched torrent) call `_infohash_as_base16()`, which reads the value the object holds *at that
-    moment*: the code keeps no memo of an earlier conversion. -/
-
-inductive UseOp where
-  | assign (op : HashOp) | convert
-  deriving Repr
-
-/-- what one step of such a history shows: the error of an assignment, or the result of the
-    conversion (`unset` = the object holds nothing yet: cannot happen on a constructed object) -/
-inductive UseObs where
-  | assigned (err : Option MErr) | converted (r : Except MErr Str) | unset
-
-def runUse (st : HState) : List UseOp → List UseObs × HState
-  | [] => ([], st)
-  | .assign op :: ops =>
-    let r := stepHash st op
-    let rs := runUse r.2 ops
-    (.assigned r.1 :: rs.1, rs.2)
-  | .convert :: ops =>
-    let rs := runUse st ops
-    ((match st with | some s => .converted (infohashAsBase16 s) | none => .unset) :: rs.1, rs.2)
 
 /-! ## get_info -/
 
@@ -323,5 +295,99 @@ def getInfo (validate : Bool) (ih : Str) : List Served → Nat → GetInfo
         if own ≠ h then .raised .metainfo (k + 1)
         else if ne then .adopted h (k + 1) else getInfo validate ih rest (k + 1)
     else if ne then .adopted h (k + 1) else getInfo validate ih rest (k + 1)
+
+/-! ## the object with adopted metadata: `_set_infohash`, `torrent()`, the loop of `get_info`
+    `Magnet.torrent()` and the conversions inside `get_info()` (tracker request, comparison with a
+    fetched torrent) call `_infohash_as_base16()`, which reads the value the object holds *at that
+    moment*: the code keeps no memo of an earlier conversion.  The metadata adopted by `get_info()`
+    (`_info`) is represented by the infohash of the torrent it was taken from (= what
+    `torrent().infohash` shows while the object holds it). -/
+
+structure MState where
+  hash : HState
+  info : Option Str := none
+  deriving DecidableEq, Repr
+
+/-- `_set_infohash(infohash)`: `_info` belongs to the previous hash — it is dropped when the
+    stored *string* changes (`getattr(self, '_infohash', None) != infohash`) -/
+def setInfohashAttr (st : MState) (ih : Str) : MState :=
+  { hash := some ih, info := if st.hash ≠ some ih then none else st.info }
+
+def setXtM (st : MState) (v : Str) : Option MErr × MState :=
+  match infohashRe v with
+  | some _ => (none, setInfohashAttr st v)
+  | none =>
+    match xtRe v with
+    | some g => (none, setInfohashAttr st g)
+    | none => (some .magnet, st)
+
+def setInfohashM (st : MState) (v : Str) : Option MErr × MState :=
+  match infohashRe v with
+  | some _ => (none, setInfohashAttr st v)
+  | none => (some .magnet, st)
+
+def stepM (st : MState) : HashOp → Option MErr × MState
+  | .xt v => setXtM st v
+  | .infohash v => setInfohashM st v
+
+/-- `_set_info_from_torrent` on what one source delivered (a failed download or unreadable data
+    only reach the callback): the `_info` afterwards, or the error raised -/
+def setInfoFrom (validate : Bool) (ih : Str) (info : Option Str) : Served → Except MErr (Option Str)
+  | .connError => .ok info
+  | .unreadable => .ok info
+  | .torrent h ne =>
+    if validate then
+      match infohashAsBase16 ih with
+      | .error e => .error e
+      | .ok own => if own ≠ h then .error .metainfo else .ok (if ne then some h else info)
+    else .ok (if ne then some h else info)
+
+/-- the loop of `get_info` on an object that may already hold metadata: sources are consulted in
+    order until `success()` (= `_info` present) holds after one of them.
+    Result: (error raised, `_info` afterwards, number of sources consulted). -/
+def fetchLoop (validate : Bool) (ih : Str) : Option Str → List Served → Nat → Option MErr × Option Str × Nat
+  | info, [], k => (none, info, k)
+  | info, s :: rest, k =>
+    match setInfoFrom validate ih info s with
+    | .error e => (some e, info, k + 1)
+    | .ok info' => if info'.isSome then (none, info', k + 1) else fetchLoop validate ih info' rest (k + 1)
+
+inductive UseOp where
+  | assign (op : HashOp) | convert | fetch (validate : Bool) (served : List Served)
+  deriving Repr
+
+/-- what one step of such a history shows: the error of an assignment; the `infohash` of
+    `torrent()` and whether it carries adopted metadata; error / return value / number of sources
+    consulted of `get_info()` (`unset` = the object holds nothing yet: cannot happen on a
+    constructed object) -/
+inductive UseObs where
+  | assigned (err : Option MErr)
+  | converted (r : Except MErr Str) (withInfo : Bool)
+  | fetched (err : Option MErr) (result : Bool) (consulted : Nat)
+  | unset
+
+/-- `Magnet.torrent().infohash`: of the adopted metadata if there is any, else the conversion -/
+def convertM (st : MState) : UseObs :=
+  match st.info, st.hash with
+  | some a, _ => .converted (.ok a) true
+  | none, some s => .converted (infohashAsBase16 s) false
+  | none, none => .unset
+
+def runUse (st : MState) : List UseOp → List UseObs × MState
+  | [] => ([], st)
+  | .assign op :: ops =>
+    let r := stepM st op
+    let rs := runUse r.2 ops
+    (.assigned r.1 :: rs.1, rs.2)
+  | .convert :: ops =>
+    let rs := runUse st ops
+    (convertM st :: rs.1, rs.2)
+  | .fetch validate served :: ops =>
+    match st.hash with
+    | none => let rs := runUse st ops; (.unset :: rs.1, rs.2)
+    | some ih =>
+      let r := fetchLoop validate ih st.info served 0
+      let rs := runUse { st with info := r.2.1 } ops
+      (.fetched r.1 r.2.1.isSome r.2.2 :: rs.1, rs.2)
 
 end Torf.Magnet
